@@ -318,3 +318,25 @@ func LiveThreads(substr string) int {
 	}
 	return count
 }
+
+// SymbolicBlobSizes(max>0) makes every encoded document produced from now on
+// (json.Marshal) a byte sequence whose LENGTH is a fresh symbolic integer in
+// [2, max]; 0 switches back to documents of unit length.  Natively it is a
+// no-op (real encodings have their real sizes).
+func SymbolicBlobSizes(max int) {}
+
+// NativeBigPayload: under the interpreter encoded sizes are symbolic and payloads
+// stay tiny (false).  Natively it reports whether the replayed model chose an
+// encoded size that does not fit 16 bits, in which case the harness writes
+// payloads that are really that large.
+func NativeBigPayload() bool {
+	if replay == nil {
+		return false
+	}
+	for _, in := range replay.Inputs {
+		if in.Name == "bloblen" && in.Value >= 65536 {
+			return true
+		}
+	}
+	return false
+}
